@@ -44,8 +44,8 @@ theorem stepOp_sameSize (o : Op) (d : Dev) (r : Except Err (Resp o)) (d' : Dev) 
     | cur x => simp only at h; split at h <;> cases h <;> rfl
     | fromEnd x => simp only at h; split at h <;> cases h <;> rfl
   | flush => simp only [stepOp] at hr; exact dc _ _ (by intro d0 r d1 h; cases h; rfl) hr
-  | now => simp only [stepOp] at hr; cases hr; split <;> rfl
-  | today => simp only [stepOp] at hr; cases hr; split <;> rfl
+  | now => simp only [stepOp] at hr; cases hr; rfl
+  | today => simp only [stepOp] at hr; cases hr; rfl
   | getFs => simp only [stepOp] at hr; cases hr; rfl
   | setFs fs => simp only [stepOp] at hr; cases hr; rfl
 
